@@ -93,6 +93,18 @@ def dump(pname, obj, out):
             one(v)
 
 
+reuse = False
+last = {}
+
+
+def new_obj(pname):
+    if reuse and pname in last:
+        return last[pname]
+    o = getattr(mod, packets[pname]['cls'])()
+    last[pname] = o
+    return o
+
+
 for line in open(sys.argv[3]):
     line = line.rstrip('\n')
     if not line:
@@ -100,7 +112,10 @@ for line in open(sys.argv[3]):
     parts = line.split(' ', 3)
     cmd = parts[0]
     try:
-        if cmd == 'CKS':
+        if cmd == 'REUSE':
+            reuse = parts[1] == '1'
+            print('R - ok')
+        elif cmd == 'CKS':
             checksum._reg.clear()
             if parts[1] == '1':
                 for a in schema['algs']:
@@ -114,7 +129,7 @@ for line in open(sys.argv[3]):
         elif cmd == 'DEC':
             data = bytes.fromhex(parts[3]) if len(parts) > 3 and parts[3] != '-' else b''
             buf = ByteBuf(data)
-            obj = getattr(mod, packets[parts[2]]['cls'])()
+            obj = new_obj(parts[2])
             obj.decode(buf)
             out = []
             dump(parts[2], obj, out)
